@@ -1,8 +1,8 @@
 """C10 - error classification: the error kind names the element of the first offending byte; TooManyHeaders exactly when a surplus line completes."""
 from .jobs import *
 REQUIRED_WITNESSES = ['E:HeaderName', 'E:HeaderValue', 'E:NewLine', 'E:Status', 'E:Token', 'E:TooManyHeaders', 'E:Version']
-BOUNDS = {'quick': 'Err leaves of: headers to 10 bytes (capacities 0,1,3), message header blocks to 7/6 (options symbolic), start lines to 8/12, capacity sweeps with one and two concrete accepted lines before the symbolic part',
-          'thorough': 'headers to 13, message header blocks to 10/8, start lines to 11/15'}
+BOUNDS = {'quick': 'Err leaves of: headers to 10 bytes (capacities 0,1,3), message header blocks to 7/6 (options symbolic), start lines to 7/11, capacity sweeps with one and two concrete accepted lines before the symbolic part',
+          'thorough': 'headers to 13, message header blocks to 10/8, start lines to 10/14'}
 OUTSIDE = 'longer inputs'
 EXPLANATION = 'on every path where the implementation or the reference rejects, the error kinds are compared (reference = first offending byte classification of the property text); all 7 kinds must be reached'
 
@@ -10,7 +10,7 @@ EXPLANATION = 'on every path where the implementation or the reference rejects, 
 def jobs(tier, seed):
     P = 'C10'; G = ['ref_err']
     J = header_families(P, G, tier)
-    J += startline_families(P, G, tier)
+    J += startline_families(P, G, tier, scale=-1)
     # TooManyHeaders precedence: array exactly full (or one short) before the symbolic part
     for cap in (1, 2):
         J += deepen(P, G, f'full-array-cap{cap}', lambda n, cap=cap: sc('req', n, prefix=REQ_LINE + b'A: 1\r\n', api='cfg', fl=REQ_HDR_SYM, cap=cap),
